@@ -187,6 +187,20 @@ func digestEquivalence(alg Algorithm, signer Signer, verifier Verifier) {
 		vReach("sign failed")
 		return
 	}
+	// the signer is used again before the first signature is checked: signatures are the caller's own
+	if vChoose("second", 2) == 1 {
+		content2 := vBlob("content2")
+		var sig2 []byte
+		var err2 error
+		if vChoose("entry2", 2) == 0 {
+			sig2, err2 = signer.Sign(vRand(), content2)
+		} else {
+			sig2, err2 = ds.SignDigest(vRand(), vHash(refHashOfAlg(int64(alg)), content2))
+		}
+		if err2 == nil {
+			vAssert("digest: a second signature from the same signer verifies", verifier.Verify(content2, sig2) == nil)
+		}
+	}
 	vAssert("digest: verifies through Verify", verifier.Verify(content, sig) == nil)
 	vAssert("digest: verifies through VerifyDigest under the algorithm's hash", dv.VerifyDigest(digest, sig) == nil)
 	vReach("end")
